@@ -53,6 +53,7 @@ var kindTable = []kindRow{
 	// C08 / C09
 	{"C08", "cty/convert", "getConversionKnown", "param:in", append([]string{"Dynamic"}, eightConcrete...), "", 0, "conversion lookup considers every source kind"},
 	{"C08", "cty/convert", "getConversionKnown", "param:out", append([]string{"Dynamic"}, eightConcrete...), "", 0, "conversion lookup considers every target kind"},
+	{"C08", "cty/convert", "dynamicReplace", "param:out", allKinds, "panic", 0, "the result type of a null / unknown conversion is computed for every target kind (the residual panics)"},
 }
 
 func init() {
